@@ -340,6 +340,26 @@ pub fn explore(prop: &str, secs: f64, seed: u64) -> i32 {
   0
 }
 
+/// bounded stand-in for the relational clause of C06 ("afterwards it answers like a fresh mapper"), which no single-run contract states: exactly `n` seeded cases -
+/// a layout, a history brought to rest (every physically held key released, or release_all), a continuation - the used mapper and a fresh one must answer alike
+pub fn fresh_bounded(n: u64, seed: u64) -> i32 {
+  let mut r = Rng(seed.wrapping_mul(0x9E3779B97F4A7C15) | 1);
+  let mut fails: Vec<serde_json::Value> = Vec::new(); let mut steps: u64 = 0;
+  for _ in 0..n {
+    let (layout, mut h1) = gen_case(&mut r, false);
+    let mut phys: BTreeSet<KeyCode> = BTreeSet::new();
+    for e in &h1 { match e { Pressed(k) => { phys.insert(*k); }, Released(k) => { phys.remove(k); } } }
+    if r.below(2) == 0 { h1.push(RELEASE_ALL); } else { for k in phys.iter() { h1.push(Released(*k)); } }
+    let (_, h2) = gen_case(&mut r, false);
+    steps += h2.len() as u64;
+    if let Some((_, msg)) = check_c06(&layout, &h1, &h2, false) {
+      if fails.len() < 3 { fails.push(serde_json::json!({"input": format!("fresh-case {}", serde_json::json!({"layout": layout, "history": h1.iter().map(ev_str).collect::<Vec<_>>(), "continuation": h2.iter().map(ev_str).collect::<Vec<_>>()})), "what": msg})); } else { break; }
+    }
+  }
+  println!("{}", serde_json::json!({"cases": n, "continuation_steps": steps, "failures": fails}));
+  if fails.is_empty() { 0 } else { 1 }
+}
+
 pub fn replay(prop: &str, text: &str) -> i32 {
   let v: serde_json::Value = serde_json::from_str(text).expect("json");
   let c = if v.get("counterexample").is_some() { v["counterexample"].clone() } else { v };
